@@ -70,10 +70,9 @@ def classify(msgs, files):
     y = "\n".join(files)
     if re.search(r"undefined: (Inf|NaN)|constant overflow|cannot use .* \(untyped float constant", txt) and re.search(r"\.inf|\.nan|\d[eE]\+?\d{3}", y, re.I):
         return "D9:nonfinite-or-huge-float-literal"
-    m = re.search(r'"imports": \{([^}]*)\}', y)
-    if m:
+    for m in re.finditer(r'"imports": \{([^}]*)\}', y):
         for a in re.findall(r'"([^"]+)": "', m.group(1)):
-            if any(t == a or t.startswith(a) for t in TEMPLATE_IMPORTS):
+            if any(t == a or t.startswith(a + "/") for t in TEMPLATE_IMPORTS):
                 return "D10:user-alias-prefix-of-template-import"
     msg = re.sub(r"g\d+s?/gen(_stub)?\.go:\d+:\d+", "gen.go", msgs[0])
     msg = re.sub(r"probe/g\d+s?", "probe/gN", msg)
